@@ -27,6 +27,7 @@ type C15Op struct {
 	NP    []string `json:"np,omitempty"` // not-prefixes
 	FailN int      `json:"fail_n,omitempty"`
 	N     int      `json:"n,omitempty"` // setlogburst: number of logged updates of A in a row
+	Via   string   `json:"via,omitempty"` // rename / copy: "helper" = through ref.RenameRef / ref.CopyRef (what `wrgl branch --move / --copy` call), which also hand back the value
 }
 
 type C15Plan struct {
@@ -71,8 +72,14 @@ func init() {
 					op = C15Op{Op: "del", A: name()}
 				case x < 52:
 					op = C15Op{Op: "rename", A: name(), B: name()}
+				if r.Sub(fmt.Sprintf("via-%d", i)).Chance(0.4) {
+					op.Via = "helper"
+				}
 				case x < 58:
 					op = C15Op{Op: "copy", A: name(), B: name()}
+				if r.Sub(fmt.Sprintf("via-%d", i)).Chance(0.4) {
+					op.Via = "helper"
+				}
 				case x < 63:
 					op = C15Op{Op: "get", A: name()}
 				case x < 75:
@@ -347,10 +354,26 @@ func execC15(t *testing.T, raw json.RawMessage, res *Result) {
 			renames++
 			_, srcOK := model.m[op.A]
 			_, dstOK := model.m[op.B]
-			if op.Op == "rename" {
+			var helperSum []byte
+			switch {
+			case op.Via == "helper" && op.Op == "rename":
+				helperSum, opErr = ref.RenameRef(db, op.A, op.B)
+			case op.Via == "helper":
+				helperSum, opErr = ref.CopyRef(db, op.A, op.B)
+			case op.Via != "":
+				res.Invalid("via")
+				return
+			case op.Op == "rename":
 				opErr = db.Rename(op.A, op.B)
-			} else {
+			default:
 				opErr = db.Copy(op.A, op.B)
+			}
+			if op.Via == "helper" && opErr == nil && srcOK {
+				if !bytes.Equal(helperSum, model.m[op.A]) {
+					res.Violate("helper-value-wrong", "%s: ref.%sRef returned %x, the ref held %x", when, map[string]string{"rename": "Rename", "copy": "Copy"}[op.Op], helperSum, model.m[op.A])
+					return
+				}
+				res.probe("rename_copy_through_ref_helpers", 1)
 			}
 			if !srcOK {
 				if opErr == nil {
